@@ -38,9 +38,10 @@ function unitCompare(a, b) { return a < b ? -1 : (a > b ? 1 : 0); }
 const n = input.values.length;
 const out = { texts: input.texts, eq: [], seq: [], lt: [], le: [], gt: [], ge: [], tonumber: [], parsefloat: [], strform: [],
   engine: 'node ' + process.version + ' (V8 ' + process.versions.v8 + ')' };
+const unaryOnly = process.env.UNARY_ONLY === '1';
 for (let i = 0; i < n; i++) {
   let eq = '', seq = '', lt = '', le = '', gt = '', ge = '';
-  for (let j = 0; j < n; j++) {
+  for (let j = 0; j < (unaryOnly ? 0 : n); j++) {
     // distinct instances on both sides, also for i == j
     const a = build(input.values[i], true), b = build(input.values[j], true);
     eq += (a == b) ? '1' : '0';
@@ -52,7 +53,7 @@ for (let i = 0; i < n; i++) {
       lt += (a < b) ? '1' : '0'; le += (a <= b) ? '1' : '0'; gt += (a > b) ? '1' : '0'; ge += (a >= b) ? '1' : '0';
     }
   }
-  out.eq.push(eq); out.seq.push(seq); out.lt.push(lt); out.le.push(le); out.gt.push(gt); out.ge.push(ge);
+  if (!unaryOnly) { out.eq.push(eq); out.seq.push(seq); out.lt.push(lt); out.le.push(le); out.gt.push(gt); out.ge.push(ge); }
   const v = build(input.values[i], true);
   out.tonumber.push(show(Number(v)));
   out.parsefloat.push(show(typeof v === 'number' ? v : parseFloat(strform(v))));
